@@ -53,7 +53,35 @@ def field_vocab(world, lib, nv):
         m.ctx.assume(z3.And(kind(t) == 2, items(t) == s.term))
         return FV.wrap(t)
 
-    d["one"], d["many"] = one, many
+    mk_list = z3.Function("fv_list", SR.z3(), FV.z3())           # a Python list of nodes (kind 3): only ever an intermediate value
+    FV_NONE = FV.fresh("FV_NONE")
+    world.axioms.append(kind(FV_NONE.term) == 0)
+
+    def lst(m, s):
+        t = mk_list(s.term)
+        m.ctx.assume(z3.And(kind(t) == 3, items(t) == s.term))
+        return FV.wrap(t)
+
+    def ctor_facts(formulas):
+        """constructor facts for every fv_one / fv_many / fv_list application occurring in the VC"""
+        out, seen, stack = [], set(), list(formulas)
+        while stack:
+            f = stack.pop()
+            if not z3.is_app(f) or f.get_id() in seen:
+                continue
+            seen.add(f.get_id())
+            nm = f.decl().name()
+            if nm == "fv_one":
+                out.append(z3.And(kind(f) == 1, node(f) == f.arg(0)))
+            elif nm == "fv_many":
+                out.append(z3.And(kind(f) == 2, items(f) == f.arg(0)))
+            elif nm == "fv_list":
+                out.append(z3.And(kind(f) == 3, items(f) == f.arg(0)))
+            stack.extend(f.children())
+        return out
+
+    lib.extra_instantiators.append(ctor_facts)
+    d["one"], d["many"], d["lst"], d["mk_list"], d["FV_NONE"] = one, many, lst, mk_list, FV_NONE
 
     def isinst(m, v, cls):
         if isinstance(v, VU) and v.sort == FV:
@@ -70,10 +98,17 @@ def field_vocab(world, lib, nv):
                 return one(m, v)
             if isinstance(v, VSeq) and v.sort == SR:
                 return many(m, v)
-            if isinstance(v, VHeapRef):
+            if isinstance(v, VHeapRef) and m.ctx.cell(v.addr).kind == "list":
                 sv = m.seq_value(v)
-                if sv is not None and sv.sort == SR:
-                    return many(m, sv)
+                if sv is None:
+                    return lst(m, SR.empty())        # a fresh empty list
+                if sv.sort == SR:
+                    return lst(m, sv)
+            if isinstance(v, VNone):
+                return FV_NONE
+            from pyvc.values import VOpt as _VOpt
+            if isinstance(v, _VOpt) and v.sort.elem == REF:
+                return FV.wrap(z3.If(v.sort.is_none(v.term), FV_NONE.term, mk_one(v.sort.val(v.term))))
         return None
 
     world.isinstance_hooks.insert(0, isinst)
